@@ -1,4 +1,108 @@
-//! C02 — stub, not built yet.
+//! C02 — reverse stepping exactly undoes forward stepping, and replay reproduces it.
+//! One case = one generated program compiled on a booted interpreter with recording on; the actual
+//! bytecode (`verif_code`) and machine state are sent to the model together with a script of
+//! `n` (next) / `r` (rnext) commands; after every command the full dump is compared.
+//! Oracle (implementation only): the dump after rewinding to step i equals the dump first seen at
+//! step i, for every i reached, and replaying forward reproduces the recorded dumps.
+use crate::progen::{gen_program, GenCfg};
+use crate::vmcanon;
 use crate::Ctx;
+use xeh::prelude::*;
 
-pub fn run(_ctx: &mut Ctx) {}
+pub const INSN_LIMIT: usize = 3000;
+
+pub fn prepare(base: &Xstate, src: &str, rec: bool) -> Option<Xstate> {
+    let mut xs = base.clone();
+    xs.intercept_stdout(true);
+    xs.set_recording_enabled(rec);
+    xs.set_insn_limit(Some(INSN_LIMIT)).ok()?;
+    match crate::guarded(|| xs.compile(src)) {
+        Some(Ok(())) => Some(xs),
+        _ => None,
+    }
+}
+
+pub fn run(ctx: &mut Ctx) {
+    let base = Xstate::boot().unwrap();
+    let cfg = GenCfg { endless: false, ..GenCfg::default() };
+    let max_steps = if ctx.thorough { 120 } else { 60 };
+    let mut n_done = 0;
+    let mut attempts = 0;
+    while n_done < ctx.n && attempts < ctx.n * 3 {
+        attempts += 1;
+        let (src, tags) = gen_program(&mut ctx.rng, &cfg);
+        let mut xs = match prepare(&base, &src, true) {
+            Some(xs) => xs,
+            None => { ctx.tag("skipped:build-error"); continue; }
+        };
+        n_done += 1;
+        for t in tags.iter() { ctx.tag(&format!("prog:{}", t)); }
+        let setup = vmcanon::setup_str(&xs, (Some(INSN_LIMIT), None, None));
+        // history of clean dumps: hist[i] = core dump after i successful steps
+        let d0 = xs.verif_dump();
+        let mut hist: Vec<String> = vec![vmcanon::core_dump(&d0)];
+        let mut pos = 0usize;
+        let mut clean = true; // false once a step failed (partial effects); the oracle stops there
+        let mut script: Vec<&str> = Vec::new();
+        let mut answers: Vec<String> = Vec::new();
+        let total = ctx.rng.below(max_steps) + 1;
+        let mut budget = total + ctx.rng.below(total + 1) * 2;
+        let mut phase_forward = true;
+        let mut oracle_done = false;
+        while budget > 0 {
+            budget -= 1;
+            let fwd = if phase_forward { if pos >= total { phase_forward = false; false } else { true } } else { ctx.rng.chance(45) };
+            if fwd {
+                let r = match crate::guarded(|| xs.next()) { Some(r) => r, None => { script.push("n"); answers.push("panic@".into()); break; } };
+                script.push("n");
+                let full = vmcanon::full_dump(&mut xs);
+                answers.push(format!("{}@{}", vmcanon::outcome(&r), full));
+                let core = vmcanon::core_dump(&xs.verif_dump());
+                if r.is_err() { clean = false; ctx.tag("step:error"); }
+                if clean {
+                    if !xs.is_running() && hist.last() == Some(&core) && pos + 1 >= hist.len() {
+                        // finished: `next` is a no-op
+                        ctx.tag("step:finished");
+                        phase_forward = false;
+                        if ctx.rng.chance(70) { continue; }
+                    } else {
+                        pos += 1;
+                        if pos < hist.len() {
+                            // replaying: must reproduce the recorded execution step for step
+                            if !oracle_done {
+                                let ok = hist[pos] == core;
+                                if !ok { oracle_done = true; }
+                                let (e, o) = (hist[pos].clone(), core.clone());
+                                ctx.check(ok, || format!("C02 replay step {} of `{}`", pos, src), || e, || o);
+                            }
+                        } else {
+                            hist.push(core);
+                        }
+                    }
+                }
+            } else {
+                let r = match crate::guarded(|| xs.rnext()) { Some(r) => r, None => { script.push("r"); answers.push("panic@".into()); break; } };
+                script.push("r");
+                let full = vmcanon::full_dump(&mut xs);
+                answers.push(format!("{}@{}", vmcanon::outcome(&r), full));
+                if clean && pos > 0 {
+                    pos -= 1;
+                    let core = vmcanon::core_dump(&xs.verif_dump());
+                    if !oracle_done {
+                        let ok = r.is_ok() && hist[pos] == core;
+                        if !ok { oracle_done = true; }
+                        let (e, o) = (hist[pos].clone(), format!("{} {}", vmcanon::outcome(&r), core));
+                        ctx.check(ok, || format!("C02 rewind to step {} of `{}`", pos, src), || e, || o);
+                    }
+                    ctx.tag("step:rnext");
+                } else if !clean {
+                    // after a failed step rnext semantics are compared with the model only
+                    ctx.tag("step:rnext-after-error");
+                    clean = false;
+                }
+            }
+        }
+        ctx.tag(&format!("steps:{}", (hist.len() - 1) / 10 * 10));
+        ctx.case(format!("C02 vm {} view=full script={}", setup, script.join(",")), answers.join(" ; "));
+    }
+}
